@@ -30,7 +30,14 @@ def gen_dirty(r):
     n = r.randint(1, 6)
     items = [('ref', 'BR', 'go'), ('data', 150000), ('label', 'go')]
     for _ in range(n):
-        how = r.randint(0, 2)
+        how = r.randint(0, 3)
+        if how == 3:
+            # a byte from a stream that has nothing to give: standard input past its end, or a simin file that does not exist
+            stream = r.choice([0, 5, 255, 256, 0x300, 0x7FF, 0x10200])
+            items += [('imm', 'LDAC', stream), ('imm', 'LDBM', 1), ('imm', 'STAI', 2), ('imm', 'LDAC', 2), ('opr', 'SVC'),
+                      ('imm', 'LDAM', 1), ('imm', 'LDAI', 1)]
+            items += [('imm', 'LDBM', 1), ('imm', 'STAI', 2), ('imm', 'LDAC', 0), ('imm', 'STAI', 3), ('imm', 'LDAC', 1), ('opr', 'SVC')]
+            continue
         addr = r.choice([r.randint(300, 199999), r.randint(150001, 150010), 199999, r.randint(1000, 2000)])
         if how == 0:
             items += [('imm', 'LDAM', addr)]
@@ -166,14 +173,14 @@ def gen_case(rng, stats, extra):
             fam = 'dirty'
             items = gen_dirty(rng)
             src = asmgen.render(items)
-            open(os.path.join(scratch, 'p.S'), 'w').write(src)
+            open(os.path.join(scratch, 'p.S'), 'w', encoding='latin-1').write(src)
             ok, r = toolchain.assemble(os.path.join(scratch, 'p.S'), img, scratch)
-            inp = b''
+            inp = bytes(rng.randrange(256) for _ in range(rng.randint(0, 2)))
         elif x < 0.65:
             fam = 'tour'
             items, _ = asmgen.gen_tour(rng)
             src = asmgen.render(items)
-            open(os.path.join(scratch, 'p.S'), 'w').write(src)
+            open(os.path.join(scratch, 'p.S'), 'w', encoding='latin-1').write(src)
             ok, r = toolchain.assemble(os.path.join(scratch, 'p.S'), img, scratch)
             inp = b''
         else:
@@ -187,7 +194,7 @@ def gen_case(rng, stats, extra):
                 stats.discard('outside-domain')
                 return
             src = xlang.p_prog(P)
-            open(os.path.join(scratch, 'p.x'), 'w').write(src)
+            open(os.path.join(scratch, 'p.x'), 'w', encoding='latin-1').write(src)
             ok, r = toolchain.compile_x(os.path.join(scratch, 'p.x'), img, scratch)
         if not ok:
             stats.discard('not-assembled')
